@@ -9,6 +9,7 @@ import (
 	"net"
 	"os"
 	"path/filepath"
+	"strconv"
 	"strings"
 	"sync"
 	"syscall"
@@ -27,7 +28,12 @@ import (
 // liveBound is the bounded-liveness limit for every single wait of the harness (accept, EOF
 // propagation, reply). Observed values are milliseconds; the limit only has to end a case in
 // which the relay hangs.
-var liveBound = 5 * time.Second
+var liveBound = func() time.Duration {
+	if ms, err := strconv.Atoi(os.Getenv("VERIF_C13_BOUND_MS")); err == nil && ms > 0 {
+		return time.Duration(ms) * time.Millisecond // the -race stage runs with a larger bound
+	}
+	return 5 * time.Second
+}()
 
 // ---- process-wide probes ------------------------------------------------------------------------
 
@@ -96,13 +102,19 @@ type readDone struct {
 }
 
 // reader consumes everything from c, checking the content against (seed, offset). first is
-// closed when the first byte arrives.
-func reader(c net.Conn, seed uint64, bufSize int, first chan<- struct{}) <-chan readDone {
+// closed when the first byte arrives. The bound is an idle bound: every Read may take at most
+// idle (progress re-arms it), so large transfers on a busy machine are not mistaken for hangs.
+// The drawn (possibly tiny) buffer size is used for the first 8 KiB, where the boundaries are.
+func reader(c net.Conn, seed uint64, bufSize int, idle time.Duration, first chan<- struct{}) <-chan readDone {
 	ch := make(chan readDone, 1)
 	go func() {
 		buf := make([]byte, bufSize)
 		var d readDone
 		for {
+			if d.n >= 8192 && len(buf) < 32768 {
+				buf = make([]byte, 32768)
+			}
+			c.SetReadDeadline(time.Now().Add(idle))
 			n, err := c.Read(buf)
 			if n > 0 {
 				if d.n == 0 && first != nil {
@@ -128,13 +140,14 @@ func reader(c net.Conn, seed uint64, bufSize int, first chan<- struct{}) <-chan 
 	return ch
 }
 
-func writeChunks(c net.Conn, seed uint64, off *int64, chunks []int) error {
+func writeChunks(c net.Conn, seed uint64, off *int64, chunks []int, idle time.Duration) error {
 	for _, n := range chunks {
 		if n == 0 {
 			continue
 		}
 		b := make([]byte, n)
 		tcpsvc.Fill(seed, *off, b)
+		c.SetWriteDeadline(time.Now().Add(idle))
 		if _, err := c.Write(b); err != nil {
 			return err
 		}
@@ -383,6 +396,7 @@ func runConn(c casePlan, i int, frontAddr string, tg target, r *connResult) {
 	}
 	c = c.view(i) // from here on Client is the client routing must choose for this connection
 	p := c.Conns[i]
+	idle := liveBound + 3*c.T() // no single wait of the harness may exceed this
 	exp := c.expect(p, unreachableCode)
 	r.labels = append(r.labels,
 		"server:"+c.Server, "client:"+c.Client, "target:"+targetKindNames[p.Target], "first-at:"+firstAtNames[p.FirstAt], "close:"+closeModeNames[p.Mode])
@@ -432,9 +446,8 @@ func runConn(c casePlan, i int, frontAddr string, tg target, r *connResult) {
 			}
 			defer tc.Close()
 			out.accepted, out.acceptedAt = true, time.Now()
-			tc.SetDeadline(time.Now().Add(liveBound + 6*c.T()))
 			first := make(chan struct{})
-			rdc := reader(tc, p.UpSeed, p.ReadBuf, first)
+			rdc := reader(tc, p.UpSeed, p.ReadBuf, idle, first)
 			var rd readDone
 			gotRD := false
 			waitRD := func() {
@@ -449,7 +462,7 @@ func runConn(c casePlan, i int, frontAddr string, tg target, r *connResult) {
 					gotRD = true
 				}
 			}
-			if err := writeChunks(tc, p.DownSeed, &out.wrote, p.Down); err != nil {
+			if err := writeChunks(tc, p.DownSeed, &out.wrote, p.Down, idle); err != nil {
 				out.err, out.liveness = "target write: "+err.Error(), isTimeout(err)
 				waitRD()
 				out.rd = rd
@@ -462,7 +475,7 @@ func runConn(c casePlan, i int, frontAddr string, tg target, r *connResult) {
 				waitRD()
 				if rd.err == nil && rd.mismatch == "" && rd.n == wantTargetRead {
 					// the uplink ended cleanly: the opposite direction must still flow
-					if err := writeChunks(tc, p.DownSeed, &out.wrote, []int{p.Extra}); err != nil {
+					if err := writeChunks(tc, p.DownSeed, &out.wrote, []int{p.Extra}, idle); err != nil {
 						out.err, out.liveness = "target write after uplink EOF: "+err.Error(), isTimeout(err)
 					}
 				}
@@ -531,13 +544,30 @@ func runConn(c casePlan, i int, frontAddr string, tg target, r *connResult) {
 		live := isTimeout(derr) || errors.Is(derr, context.DeadlineExceeded)
 		if exp.ok {
 			r.fail(live, "SIG=C13/handshake-failed %s>%s target %s: DialStream through the proxy failed: %v", c.Server, c.Client, targetKindNames[p.Target], derr)
-		} else {
-			r.fail(live, "SIG=C13/failure-reply-after-forced-success %s>%s target %s (%s): expected success (no failure can be signalled any more), got %v", c.Server, c.Client, targetKindNames[p.Target], exp.why, derr)
+			return
+		}
+		var re socks5.ReplyError
+		var he httpproxy.ConnectNonSuccessfulResponseError
+		switch {
+		case errors.As(derr, &re) || errors.As(derr, &he):
+			r.fail(false, "SIG=C13/failure-reply-after-forced-success %s>%s target %s (%s): expected success (no failure can be signalled any more), got %v", c.Server, c.Client, targetKindNames[p.Target], exp.why, derr)
+		case live:
+			r.fail(true, "SIG=C13/not-closed-after-failed-dial %s>%s target %s (%s): handshake neither completed nor failed: %v", c.Server, c.Client, targetKindNames[p.Target], exp.why, derr)
+		default:
+			// A transport error (EPIPE / reset / EOF) while the client package was still writing the
+			// payload it had been given: the relay had already ended the connection, which is what it
+			// must do here. Nothing was delivered to the client. (Seen with ss2022 payloads larger than
+			// the first chunk: the excess is written after the relay has rejected the request.)
+			r.labels = append(r.labels, "closed-without-reply", "closed-while-client-still-writing")
+			r.session = exp.session
+			r.upMax = int64(len(payload0))
+			if exp.session {
+				r.labels = append(r.labels, "phantom-session")
+			}
 		}
 		return
 	}
 	defer cc.Close()
-	cc.SetDeadline(time.Now().Add(liveBound + 6*c.T()))
 
 	if !exp.ok {
 		// success was signalled (or the protocol has no reply); the relay must now simply end the
@@ -546,11 +576,13 @@ func runConn(c casePlan, i int, frontAddr string, tg target, r *connResult) {
 		if exp.forcedReply && c.hasReply() {
 			r.labels = append(r.labels, "forced-success-reply")
 		}
-		rdc := reader(cc, p.DownSeed, p.ReadBuf, nil)
+		rdc := reader(cc, p.DownSeed, p.ReadBuf, idle, nil)
+		attempted := upOff
 		if p.FirstAt != faHandshake {
 			time.Sleep(time.Until(tReady.Add(firstDelay(c, p.FirstAt))))
 			if p.FirstLen > 0 {
-				_ = writeChunks(cc, p.UpSeed, &upOff, []int{p.FirstLen}) // may fail: the relay is allowed to be gone
+				attempted += int64(p.FirstLen)                                 // a failed Write may still have delivered a prefix
+				_ = writeChunks(cc, p.UpSeed, &upOff, []int{p.FirstLen}, idle) // may fail: the relay is allowed to be gone
 			}
 		}
 		rd := <-rdc
@@ -559,11 +591,11 @@ func runConn(c casePlan, i int, frontAddr string, tg target, r *connResult) {
 			return
 		}
 		if isTimeout(rd.err) {
-			r.fail(true, "SIG=C13/not-closed-after-failed-dial %s>%s target %s (%s): connection still open after %s", c.Server, c.Client, targetKindNames[p.Target], exp.why, liveBound+6*c.T())
+			r.fail(true, "SIG=C13/not-closed-after-failed-dial %s>%s target %s (%s): connection still open %s after the last event", c.Server, c.Client, targetKindNames[p.Target], exp.why, idle)
 			return
 		}
 		r.session = exp.session
-		r.upMax = upOff
+		r.upMax = attempted
 		if exp.session {
 			r.labels = append(r.labels, "phantom-session")
 		}
@@ -575,7 +607,7 @@ func runConn(c casePlan, i int, frontAddr string, tg target, r *connResult) {
 	if p.Mode == cmClientFirst {
 		wantClientRead += int64(p.Extra)
 	}
-	rdc := reader(cc, p.DownSeed, p.ReadBuf, nil)
+	rdc := reader(cc, p.DownSeed, p.ReadBuf, idle, nil)
 	var crd readDone
 	gotCRD := false
 	waitCRD := func() {
@@ -588,12 +620,12 @@ func runConn(c casePlan, i int, frontAddr string, tg target, r *connResult) {
 	if p.FirstAt != faHandshake {
 		time.Sleep(time.Until(tReady.Add(firstDelay(c, p.FirstAt))))
 		firstWriteAt = time.Now()
-		werr = writeChunks(cc, p.UpSeed, &upOff, []int{p.FirstLen})
+		werr = writeChunks(cc, p.UpSeed, &upOff, []int{p.FirstLen}, idle)
 	} else {
 		firstWriteAt = tReady
 	}
 	if werr == nil {
-		werr = writeChunks(cc, p.UpSeed, &upOff, p.UpRest)
+		werr = writeChunks(cc, p.UpSeed, &upOff, p.UpRest, idle)
 	}
 	if werr == nil {
 		switch p.Mode {
@@ -603,7 +635,7 @@ func runConn(c casePlan, i int, frontAddr string, tg target, r *connResult) {
 			waitCRD()
 			if crd.err == nil && crd.mismatch == "" && crd.n == wantClientRead {
 				// the downlink ended cleanly: the opposite direction must still flow
-				werr = writeChunks(cc, p.UpSeed, &upOff, []int{p.Extra})
+				werr = writeChunks(cc, p.UpSeed, &upOff, []int{p.Extra}, idle)
 			}
 			if werr == nil {
 				werr = cc.CloseWrite()
